@@ -89,24 +89,38 @@ def random_beh(rng):
     return {"cap": rng.choice([1, 2, 3]), "mut": 0, "steps": steps}
 
 
-def judge(ctx, tpath, what):
-    # 1. every clause except the one of the known finding
+def phase_ok(ctx, tpath, what):
+    """Validate one phase with every clause except the one of the known finding."""
     res = ctx.validate("PeerGrammarServerTrace", "PeerGrammarServerTraceTol.cfg", tpath)
-    if not res["accepted"]:
-        idx, seg = ctx.trace_segment(tpath, res["line"])
-        ctx.violation("%s: clause %s at trace line %d (behaviour %d): %s" % (
-            what, res["clause"], res["line"], idx, open(tpath).read().splitlines()[res["line"] - 1][:400]),
-            {"clause": res["clause"], "segment": _peer.segment_text(seg)})
-        return
-    # 2. the full monitor: the only clause that may still fire is the known-finding class
+    if res["accepted"]:
+        return True
+    idx, seg = ctx.trace_segment(tpath, res["line"])
+    lines = open(tpath).read().splitlines()
+    ev = json.loads(lines[res["line"] - 1])
+    if ev.get("ev") == "crash" and ev.get("kind") == "hang":
+        # a wedged driver is not part of this property's text: machinery, not a verdict
+        raise Inconclusive("%s: the driver hung on behaviour %s" % (what, ev.get("beh", "")[:600]))
+    ctx.violation("%s: clause %s at trace line %d: %s" % (what, res["clause"], res["line"], lines[res["line"] - 1][:400]),
+                  {"clause": res["clause"], "segment": _peer.segment_text(seg)})
+    return False
+
+
+def judge_known(ctx, paths):
+    """The full monitor over all phases: the only clause that may still fire is the known-finding class."""
+    tpath = os.path.join(ctx.run, "trace-all.ndjson")
+    with open(tpath, "w") as out:
+        for p in paths:
+            out.write(open(p).read())
     res = ctx.validate("PeerGrammarServerTrace", "PeerGrammarServerTrace.cfg", tpath, count_resets=False)
+    ctx.cov["events_validated"] -= res["consumed"]   # already counted per phase
     if not res["accepted"]:
         idx, seg = ctx.trace_segment(tpath, res["line"])
         if res["clause"] != KNOWN_CLAUSE:
             raise Inconclusive("monitor disagreement: %s" % res["clause"])
+        lines = open(tpath).read().splitlines()
         ctx.finding(KNOWN_SIG,
-                    "%s: a handler was started for a request on a stream id the client had already used (trace line %d): %s" % (
-                        what, res["line"], open(tpath).read().splitlines()[res["line"] - 1][:300]),
+                    "a handler was started for a request on a stream id the client had already used (trace line %d): %s" % (
+                        res["line"], lines[res["line"] - 1][:300]),
                     {"clause": res["clause"], "segment": _peer.segment_text(seg)})
 
 
@@ -114,8 +128,20 @@ def run(ctx):
     ctx.mc("PeerGrammarServerMC", ctx.pick("PeerGrammarServerMC.cfg", "PeerGrammarServerMCT.cfg"), workers=4)
     ctx.neg("PeerGrammarServerMC", "PeerGrammarServerNeg1.cfg", expect="I_NoIllegalHandler", workers=2)
     ctx.neg("PeerGrammarServerMC", "PeerGrammarServerNeg2.cfg", expect="I_ExcessRefused", workers=2)
-    ctx.neg("PeerGrammarServerMC", "PeerGrammarServerNeg3.cfg", expect="I_NoIllegalHandler", workers=2)
+    if not ctx.quick():
+        ctx.neg("PeerGrammarServerMC", "PeerGrammarServerNeg3.cfg", expect="I_NoIllegalHandler", workers=2)
+        # the stream-id comparison as coded (against the server's own high-water mark): the model itself shows the finding
+        ctx.neg("PeerGrammarServerMC", "PeerGrammarServerCode.cfg", expect="I_NoIllegalHandler", workers=2)
     binary = ctx.go_build("internal/zzverif/c12")
+    ctx.assumptions += [
+        "handlers of the driver return as soon as their context is cancelled (so running handlers == active streams at quiescence)",
+        "observations are taken at testing/synctest quiescence plus 1.5 s of virtual time after every step",
+    ]
+    ctx.cov["rule"] = ("behaviours = edge cover of the TLC state graph of PeerGrammarServerMC (BFS prefix + one transition; requests with "
+                       "<= 2 (thorough 3) deviating attributes, <= 3 requests, cancellations, completions, MaxConcurrentStreams 1 and 2) "
+                       "executed step by step by a raw HTTP/2 client against a real grpc.Server; non-trivial = contains a request; "
+                       "distinct by step sequence; plus seeded random sequences (2-8 steps, all ten attributes random, shuffled header "
+                       "order, MaxConcurrentStreams 1-3) and seeded byte-level mutations of the serialised streams")
 
     # ---- behaviours from the TLC state graph (edge cover)
     g = ctx.dump_graph("PeerGrammarServerMC", ctx.pick("PeerGrammarServerGen.cfg", "PeerGrammarServerGenT.cfg"), workers=4)
@@ -125,7 +151,7 @@ def run(ctx):
         st = step_of(state_text, label)
         st["_cap"] = cap_of(state_text)
         return st
-    raw = ctx.edge_cover(g, step_cap, limit=ctx.pick(2500, 40000))
+    raw = ctx.edge_cover(g, step_cap, limit=ctx.pick(2000, 40000))
     behs = []
     for b in raw:
         cap = b[0]["_cap"]
@@ -136,21 +162,21 @@ def run(ctx):
     for b in behs:
         ctx.count(b, nontrivial=any(st["a"] == "req" for st in b["steps"]))
     ctx.sample(behs[len(behs) // 2])
-    judge(ctx, tpath, "replay of TLC behaviours")
 
     # ---- seeded random sequences over the full attribute product
-    n = ctx.pick(600, 12000)
+    n = ctx.pick(500, 12000)
     rbehs = [random_beh(ctx.rng) for _ in range(n)]
     ctx.cov["behaviours_generated"] += n
+    if not phase_ok(ctx, tpath, "replay of TLC behaviours"):
+        return
     tpath2 = os.path.join(ctx.run, "trace-random.ndjson")
     _peer.run_batched(ctx, binary, "TestVerifC12Replay", rbehs, tpath2, "random", batch=1000, reset_fields=reset_fields)
     for b in rbehs:
         ctx.count(b)
     ctx.sample(rbehs[0])
-    judge(ctx, tpath2, "random request sequences seed %d" % ctx.seed)
 
     # ---- byte-level mutation of the serialised client streams (generic clauses only)
-    m = ctx.pick(800, 15000)
+    m = ctx.pick(600, 15000)
     pool = behs + rbehs
     mbehs = []
     for _ in range(m):
@@ -158,17 +184,11 @@ def run(ctx):
         b["mut"] = ctx.rng.choice([1, 1, 2, 3, 5])
         mbehs.append(b)
     ctx.cov["behaviours_generated"] += m
+    if not phase_ok(ctx, tpath2, "random request sequences seed %d" % ctx.seed):
+        return
     tpath3 = os.path.join(ctx.run, "trace-mut.ndjson")
     _peer.run_batched(ctx, binary, "TestVerifC12Replay", mbehs, tpath3, "mut", batch=1000, reset_fields=reset_fields)
     ctx.count({"mutated_streams": m, "seed": ctx.seed}, n=m)
-    judge(ctx, tpath3, "byte-mutated client streams seed %d" % ctx.seed)
-
-    ctx.assumptions += [
-        "handlers of the driver return as soon as their context is cancelled (so running handlers == active streams at quiescence)",
-        "observations are taken at testing/synctest quiescence plus 1.5 s of virtual time after every step",
-    ]
-    ctx.cov["rule"] = ("behaviours = edge cover of the TLC state graph of PeerGrammarServerMC (BFS prefix + one transition; requests with "
-                       "<= 2 (thorough 3) deviating attributes, <= 3 requests, cancellations, completions, MaxConcurrentStreams 1 and 2) "
-                       "executed step by step by a raw HTTP/2 client against a real grpc.Server; non-trivial = contains a request; "
-                       "distinct by step sequence; plus seeded random sequences (2-8 steps, all ten attributes random, shuffled header "
-                       "order, MaxConcurrentStreams 1-3) and seeded byte-level mutations of the serialised streams")
+    if not phase_ok(ctx, tpath3, "byte-mutated client streams seed %d" % ctx.seed):
+        return
+    judge_known(ctx, [tpath, tpath2, tpath3])
